@@ -5,6 +5,7 @@ from __future__ import annotations
 import argparse
 import itertools
 import json
+import math
 import os
 import selectors
 import socket
@@ -36,7 +37,7 @@ class ScriptedSock(socket.socket):
         return self._step(bytes(data))
 
 
-def run_case(chunks, script, timeout=5.0):
+def run_case(chunks, script, timeout=5.0, retry_interval=0.01):
     a, b = socket.socketpair()
     fd = os.dup(a.fileno())
     a.close()
@@ -44,7 +45,7 @@ def run_case(chunks, script, timeout=5.0):
     ScriptedSock.script = list(script)
     ScriptedSock.calls = 0
     s.setblocking(False)
-    tr = SocketStreamTransport(s, retry_interval=0.01)
+    tr = SocketStreamTransport(s, retry_interval=retry_interval)
     result = {}
 
     def work():
@@ -96,6 +97,14 @@ def search(max_chunks=3):
                 pr = run_case(list(chunks), script)
                 if pr:
                     return {"reproduced": True, "chunks": [c.hex() for c in chunks], "script": script, "violation": pr, "cases": cases}
+    # the peer never writes and retry_interval is infinite: a would-block that waits for the wrong readiness never wakes up
+    for chunks in ([b"a"], [b"a", b"bc"], [b"", b"bc", b"a"]):
+        for script in (["B", 1], [1, "B", 1], ["B", "B", 1 << 20]):
+            cases += 1
+            pr = run_case(list(chunks), script, timeout=math.inf, retry_interval=math.inf)
+            if pr:
+                return {"reproduced": True, "chunks": [c.hex() for c in chunks], "script": script, "violation": pr, "cases": cases,
+                        "retry_interval": "inf", "timeout": "inf"}
     return {"reproduced": False, "cases": cases, "exhaustive": True}
 
 
@@ -106,7 +115,8 @@ def main():
     a = ap.parse_args()
     if a.replay:
         w = json.load(open(a.replay))["witness"]
-        pr = run_case([bytes.fromhex(c) for c in w["chunks"]], w["script"])
+        inf = w.get("retry_interval") == "inf"
+        pr = run_case([bytes.fromhex(c) for c in w["chunks"]], w["script"], **({"timeout": math.inf, "retry_interval": math.inf} if inf else {}))
         print(json.dumps({"reproduced": bool(pr), "violation": pr}))
         return 1 if pr else 0
     print(json.dumps(search(a.max_chunks)))
